@@ -614,6 +614,11 @@ class Repo:
                 return {'frozenset': frozenset, 'set': frozenset, 'tuple': tuple, 'list': list}[fn](v)
             if fn == 'len' and len(node.args) == 1:
                 return len(f(node.args[0]))
+            if fn == 'range' and 1 <= len(node.args) <= 3 and not node.keywords:
+                vs = [f(a) for a in node.args]
+                if all(isinstance(v, int) and not isinstance(v, bool) for v in vs) and len(range(*vs)) <= 100000:
+                    return list(range(*vs))
+                raise NotConstant('range')
             if fn in ('int', 'float', 'str') and len(node.args) == 1 and not node.keywords:
                 v = f(node.args[0])
                 if isinstance(v, (int, float, str)):
